@@ -216,6 +216,16 @@ CHECKS["C14"] = ("exploration",
     "Trusted: TLC (Wire.tla), the construction / observation code of vlib/props/C14.py. The specification contributes the inputs and the definition of equivalence "
     "(thin use, DESIGN.md section 5). Cost-function variables, external variables and distribution hints are not dumped by dcop_yaml and are not generated.",
     "DESIGN.md section 4 C14")
+
+CHECKS["C15"] = ("exploration",
+    "objects collected from real executions (messages of 11 algorithms, of whole resilient orchestrated runs; computation definitions of the four graph models; agent definitions) passed through the real wire encoding / pickle; their observation before and after judged equal by TLC (Judge_C15 / Wire.tla)",
+    "For TLC-drawn DCOPs: the ComputationDef of every node of the constraints hyper-graph, factor graph, pseudo-tree and ordered graph; a sample of each message type sent in real "
+    "executions of dpop, syncbb, mgm, mgm2, dsa, adsa, dsatuto, dba, gdba, maxsum, amaxsum and in orchestrated runs with replication, agent removal and repair (deploy, run, "
+    "value_change, discovery, ucs_replicate, setup_repair ...); AgentDef objects through pickle. Each goes through simple_repr -> json.dumps -> json.loads -> from_repr (what the "
+    "HTTP transport does); the observation (all fields recursively, links with types and ends, relation values on every assignment, variable costs, derived accessors) is a set "
+    "of facts that TLC compares. The evidence lists the message types of the package that were not exercised.",
+    "Trusted: TLC (set equality), the observation function of vlib/props/C15.py. Thin use of the specification (DESIGN.md section 5). Sockets are not used.",
+    "DESIGN.md section 4 C15")
 NOT_YET = "check not built yet in this snapshot (work in progress, see DESIGN.md section 9)"
 
 fix_commits = subprocess.run(["git", "-C", "/repo", "log", "--format=%h %s", "aeaae91..HEAD"], capture_output=True, text=True).stdout.splitlines()
